@@ -352,12 +352,31 @@ def _exact_divisions(ctx, model):
                    "among its arguments, so the division need not be exact")
         if isinstance(den, ast.Name) and den.id in defs and not ok:
             # row // g  with g = gcd over entries of that row
+            def expand(e, depth=0):
+                """source of e with locals that have one definition replaced
+                by it (the operands of the gcd may be gathered in a local)"""
+                src_ = ast.unparse(e)
+                if depth > 3:
+                    return src_
+                for nm_ in {x.id for x in ast.walk(e)
+                            if isinstance(x, ast.Name)}:
+                    if nm_ in defs and len(defs[nm_]) == 1 and nm_ != den.id:
+                        src_ += " <- " + expand(defs[nm_][0], depth + 1)
+                return src_
+            n_gcd = n_other = 0
             for d in defs[den.id]:
                 if isinstance(d, ast.Call) and "gcd" in ast.unparse(d.func):
-                    inner = ast.unparse(d)
+                    inner = expand(d)
                     if f"in {nsrc}" in inner or nsrc in [
                             ast.unparse(a) for a in d.args]:
-                        ok = True
+                        n_gcd += 1
+                        continue
+                if isinstance(d, ast.UnaryOp) and isinstance(d.op, ast.USub) \
+                        and isinstance(d.operand, ast.Name) and \
+                        d.operand.id == den.id:
+                    continue    # -g: a gcd is determined up to a unit
+                n_other += 1
+            ok = n_gcd >= 1 and n_other == 0
             why = (f"'{nsrc} //= {dsrc}': {dsrc} is not a gcd taken over the "
                    f"entries of {nsrc}, so dividing {nsrc} by it silently floors "
                    "(a non-integral system is then 'solved' instead of refused)")
